@@ -100,7 +100,7 @@ func main() {
 				changed = true
 			}
 			if *yield {
-				y := insertYields(p.Fset, f)
+				y := insertYields(p.Fset, f, p.TypesInfo)
 				nYield += y
 				if y > 0 {
 					changed = true
@@ -309,7 +309,44 @@ func rewriteMapRanges(fset *token.FileSet, f *ast.File, info *types.Info) int {
 	return n
 }
 
-func insertYields(fset *token.FileSet, f *ast.File) int {
+// syncOp classifies a call as one of the sync package's lock operations:
+// +1 acquires (Lock, RLock), -1 releases (Unlock, RUnlock), 2 is Once.Do.
+func syncOp(info *types.Info, call *ast.CallExpr) int {
+	sel, ok := call.Fun.(*ast.SelectorExpr)
+	if !ok || info == nil {
+		return 0
+	}
+	var fn *types.Func
+	if s, ok := info.Selections[sel]; ok {
+		fn, _ = s.Obj().(*types.Func)
+	} else if o, ok := info.Uses[sel.Sel]; ok {
+		fn, _ = o.(*types.Func)
+	}
+	if fn == nil || fn.Pkg() == nil || fn.Pkg().Path() != "sync" {
+		return 0
+	}
+	recv := ""
+	if sig, ok := fn.Type().(*types.Signature); ok && sig.Recv() != nil {
+		t := sig.Recv().Type()
+		if p, ok := t.(*types.Pointer); ok {
+			t = p.Elem()
+		}
+		if n, ok := t.(*types.Named); ok {
+			recv = n.Obj().Name()
+		}
+	}
+	switch {
+	case (recv == "Mutex" || recv == "RWMutex") && (fn.Name() == "Lock" || fn.Name() == "RLock"):
+		return 1
+	case (recv == "Mutex" || recv == "RWMutex") && (fn.Name() == "Unlock" || fn.Name() == "RUnlock"):
+		return -1
+	case recv == "Once" && fn.Name() == "Do":
+		return 2
+	}
+	return 0
+}
+
+func insertYields(fset *token.FileSet, f *ast.File, info *types.Info) int {
 	n := 0
 	curFn := ""
 	var doList func(list []ast.Stmt) []ast.Stmt
@@ -320,6 +357,33 @@ func insertYields(fset *token.FileSet, f *ast.File) int {
 			nextID++
 			sites = append(sites, site{ID: id, Kind: "yield", Pos: fset.Position(s.Pos()).String(), Fn: curFn})
 			out = append(out, &ast.ExprStmt{X: simrtCall("Yield", intLit(id))})
+			hold := func(d int) ast.Stmt { return &ast.ExprStmt{X: simrtCall("Hold", intLit(d))} }
+			switch st := s.(type) {
+			case *ast.ExprStmt:
+				if call, ok := st.X.(*ast.CallExpr); ok {
+					switch syncOp(info, call) {
+					case 1:
+						out = append(out, hold(1), s)
+						n++
+						continue
+					case -1:
+						out = append(out, s, hold(-1))
+						n++
+						continue
+					case 2:
+						out = append(out, hold(1), s, hold(-1))
+						n++
+						continue
+					}
+				}
+			case *ast.DeferStmt:
+				if syncOp(info, st.Call) == -1 {
+					// runs after the deferred Unlock (LIFO)
+					out = append(out, &ast.DeferStmt{Call: simrtCall("Hold", intLit(-1))}, s)
+					n++
+					continue
+				}
+			}
 			out = append(out, s)
 			n++
 		}
